@@ -10,8 +10,10 @@
           for name in [''.join(item) for item in product( *parts)]: self.cells[name] = (c, pin_dict)
 
     Domain: code points < 256.  Python's \s on str is Unicode white space: below 256 these are 9-13, 28-31, 32, 133, 160.
-    [None] = the constructor raises (lark error, duplicate cell name assertion of Node(), IndexError of
-    eliminate_1to1_forks on an undriven internal signal read by exactly one gate). *)
+    [None] = the constructor raises (lark error, duplicate cell name assertion of Node()).  Until the fix of D38
+    (circuit.py eliminate_1to1_forks: `if len(n.ins) < 1 or n.ins[0] is None: continue`) it also raised IndexError for an undriven
+    internal signal read by exactly one gate ([elim_ok], kept below for reference); now that fork is left alone and the gate
+    keeps reading the signal of that name. *)
 From Coq Require Import List NArith Bool Arith String Ascii.
 From KV Require Import Model.VerilogElab Model.BenchText Model.TechCell.
 Import ListNotations.
@@ -128,9 +130,10 @@ Fixpoint prefix_free_but_last (ps : list (list string)) : Prop :=
   | p :: r => prefix_free p /\ prefix_free_but_last r
   end.
 
-(** ** one cell: bench.parse, eliminate_1to1_forks (only whether it raises), pin table *)
+(** ** one cell: bench.parse, eliminate_1to1_forks (never raises on an elaborated bench text since the fix of D38), pin table *)
 Definition nil_b {A} (l : list A) : bool := match l with [] => true | _ => false end.
-(* eliminate_1to1_forks reads n.ins[0] of every fork outside io_nodes that has exactly one reader *)
+(* BEFORE the fix of D38 eliminate_1to1_forks read n.ins[0] of every fork outside io_nodes that has exactly one reader and raised
+   IndexError when [elim_ok] is false; no longer consulted by [cell_of_text] *)
 Definition elim_ok (c : bcirc) : bool :=
   forallb (fun ip => let '(i, n) := ip in
      negb (is_fork n && negb (existsb (Nat.eqb i) (bc_io c)) && Nat.eqb (List.length (bn_outs n)) 1 && nil_b (bn_ins n)))
@@ -158,10 +161,8 @@ Definition cell_of_text (pat body : string) : option tcell :=
       match elab_bench stmts with
       | None => None
       | Some c =>
-          if elim_ok c then
-            Some {| t_pattern := pat; t_names := expand_names pat; t_ins := io_pins c false; t_outs := io_pins c true;
-                    t_gates := gates_of stmts; t_stmts := tstmts_of (io_pins c true) stmts |}
-          else None
+          Some {| t_pattern := pat; t_names := expand_names pat; t_ins := io_pins c false; t_outs := io_pins c true;
+                  t_gates := gates_of stmts; t_stmts := tstmts_of (io_pins c true) stmts |}
       end
   end.
 
